@@ -144,6 +144,15 @@ def impl(c):
                 with KeyFile(path) as kf2:
                     c["_back"] = bytes(kf2.decrypt(SecureValue(sv.method, sv.ciphertext)))
                 c["_draws"] = len(drawn)
+                # one provider object used several times, and a second object: every call stands on its own
+                from cincoconfig.encryption import XorProvider, AesProvider
+                cls = XorProvider if sv.method == "xor" else AesProvider
+                p1, p2 = cls(c["key"]), cls(c["key"])
+                e1 = bytes(p1.encrypt(c["pt"]))
+                e2 = bytes(p1.encrypt(c["pt"]))
+                c["_prov"] = {"first": e1 == bytes(sv.ciphertext), "second": e2 == bytes(sv.ciphertext),
+                              "dec_same": bytes(p1.decrypt(e2)) == c["pt"], "dec_same_again": bytes(p1.decrypt(e1)) == c["pt"],
+                              "dec_other": bytes(p2.decrypt(e2)) == c["pt"], "dec_other_again": bytes(p2.decrypt(e1)) == c["pt"]}
             except Broken:
                 raise
             except Exception as e:  # noqa
@@ -189,6 +198,10 @@ def oracle(c, obs):
             bad.append("recorded method is not concrete: %r" % method)
         if c.get("_back") != c["pt"]:
             bad.append("decrypt(encrypt(p)) != p for method %s" % c["method"])
+        wrong = sorted(k for k, v in (c.get("_prov") or {"missing": False}).items() if not v)
+        if wrong:
+            # (the recorded os.urandom hands out the same IV each time, so equal ciphertexts are expected here)
+            bad.append("a %s provider object used more than once does not repeat what a fresh one does: %s" % (method, ", ".join(wrong)))
         if method == "xor":
             if ct != bytes(b ^ c["key"][i % 32] for i, b in enumerate(c["pt"])):
                 bad.append("xor ciphertext is not data xor cycled key")
